@@ -717,9 +717,11 @@ size_t soxr_output(soxr_t p, void * out, size_t len0)
     olen -= odone;
     idone = p->input_fn(p->input_fn_state, &in, ilen);
     was_flushing = p->flushing;
-    if (!in)
+    if (!in) {
       p->error = "input function reported failure";
-    else soxr_input(p, in, idone);
+      break;
+    }
+    soxr_input(p, in, idone);
   } while (odone || idone || (!was_flushing && p->flushing));
   return odone0;
 }
